@@ -1,6 +1,6 @@
 (* C08: the statements of Properties.v (kept readable here) and an instance showing that the hypotheses are satisfiable. *)
 From Coq Require Import List Arith Lia Setoid Morphisms Ring Bool ZArith.
-From C08 Require Import Model Spec ProofsBasic ProofsKara ProofsDiv ProofsPow.
+From C08 Require Import Model Spec ProofsBasic ProofsKara ProofsDiv ProofsSqr ProofsNewton ProofsGcd ProofsPow.
 Import ListNotations.
 
 Section Stmts.
@@ -43,10 +43,24 @@ Definition RawAddNormal_stmt := forall P Q, normal D P -> normal D Q -> normal D
    e >= 1 the result is congruent to the e-fold product P*...*P modulo U (U = the stripped modulus), GIVEN the two step facts
    that are only correspondence-tested: sqr A = A*A and modin(A,U) = A up to a multiple of U.  Products and the reduction
    `mod` inside the loop are covered by the proved Karatsuba and division-identity theorems. *)
-Definition PowmodCong_stmt := forall kthr sthr P U0 (e : positive), 1 <= kthr ->
-  (forall A, eqv D (sqr D kthr sthr A) (pmul A A)) ->
+Definition PowmodCong_stmt := forall kthr sthr P U0 (e : positive), 1 <= kthr -> 1 <= sthr ->
   (forall A, cong D (setdegree D U0) (modin D A (setdegree D U0)) A) ->
   cong D (setdegree D U0) (powmod D kthr sthr P (Npos e) U0) (pun D P (Pos.to_nat e)).
+(* S10: the dedicated squaring (stdsqr, sqrrec on ranges) = schoolbook square, every pair of thresholds >= 1 *)
+Definition Sqr_stmt := forall kthr sthr P, 1 <= kthr -> 1 <= sthr -> peq (sqr D kthr sthr P) (pmul P P).
+(* S11: Newton inversion: A * invmodpowx(A,l) = 1 mod X^l for every l and every A with A[0] <> 0 *)
+Definition Newton_stmt := forall kthr sthr A l, 1 <= kthr -> 1 <= sthr -> coef D A 0 <> d0 D ->
+  forall k, k < l -> coef D (pmul A (invmodpowx D kthr sthr A l)) k = coef D [d1 D] k.
+(* S12: Euclid.  Full statement: the gcd divides both operands.  Proved (partial): for every run of the extended loop that has
+   reached G = 0 the value it ends on divides both starting polynomials (that the fuel S (length G) suffices needs
+   deg R < deg B, not proved) *)
+Definition GcdDivides_stmt := forall kthr sthr fuel F G S0 S1 T0 T1, 1 <= kthr ->
+  let '(F', G', _, _, _, _) := egcd_loop D kthr sthr fuel F G S0 S1 T0 T1 in
+  isZero D G' = true -> dvd D F' F /\ dvd D F' G.
+(* S13: lcm(F,A,B) is a common multiple of A and B (deg A, deg B >= 1; same proviso on the loop) *)
+Definition LcmMultiple_stmt := forall kthr sthr A B, 1 <= kthr -> (1 <= degree D A)%Z -> (1 <= degree D B)%Z ->
+  isZero D (lcm_loop_G D kthr sthr A B) = true ->
+  dvd D A (lcm D kthr sthr A B) /\ dvd D B (lcm D kthr sthr A B).
 (* S7: setdegree keeps the polynomial, returns a normal form, and the zero polynomial is recognised *)
 Definition Normal_stmt := forall P,
   peq (setdegree D P) P /\ normal D (setdegree D P) /\ (isZero D P = true <-> peq P []).
@@ -75,7 +89,13 @@ Proof.
   intros P Q. split. apply (add_pub_peq D OK). split. apply eqv_peq. apply (sub_pub_eqv D OK).
   intros HP HQ. split. apply (add_pub_normal D OK); assumption. apply (sub_pub_normal D OK); assumption.
 Qed.
-Lemma PowmodCong_ok : PowmodCong_stmt D. Proof. exact (powmod_cong D OK). Qed.
+Lemma PowmodCong_ok : PowmodCong_stmt D. Proof. exact (powmod_cong_sqr D OK). Qed.
+Lemma Sqr_ok : Sqr_stmt D. Proof. exact (sqr_spec D OK). Qed.
+Lemma Newton_ok : Newton_stmt D.
+Proof. intros kthr sthr A l Hk Hs HA. exact (invmodpowx_spec D OK kthr sthr Hk Hs A l HA). Qed.
+Lemma GcdDivides_ok : GcdDivides_stmt D.
+Proof. intros kthr sthr fuel F G S0 S1 T0 T1 Hk. exact (egcd_loop_dvd D OK kthr sthr Hk fuel F G S0 S1 T0 T1). Qed.
+Lemma LcmMultiple_ok : LcmMultiple_stmt D. Proof. exact (lcm_common_multiple D OK). Qed.
 Lemma Normal_ok : Normal_stmt D.
 Proof.
   intros P. split. apply (setdegree_peq D OK). split. apply (setdegree_normal D OK). apply (isZero_spec D OK).
